@@ -161,7 +161,6 @@ impl Builtins {
                         stack.push((result, pos));
                     }
                 }
-                import_stack.push(path.clone());
                 return Ok(());
             }
             return Err(Error::new(format!("Invalid Path {:?}", val).into(), pos));
